@@ -69,7 +69,7 @@ type methodKey struct {
 
 var defaultInterp = []string{
 	"io", "strconv", "container/list", "sort", "strings", "bytes", "bufio", "unicode/utf8", "slices", "maps", "cmp",
-	"github.com/elliotchance/orderedmap", "encoding/csv", "io/fs", "path", "math/bits", "math",
+	"github.com/elliotchance/orderedmap", "encoding/csv", "github.com/dimchansky/utfbom", "io/fs", "path", "math/bits", "math",
 }
 
 var defaultBodyOK = []string{
